@@ -392,6 +392,21 @@ async def _r_open_dlc(env, mux):
     return dlc.state.name
 
 
+async def _s_dlc(env):
+    mux = await rfcomm.Client(env.conn_l).start()
+    return await mux.open_dlc(env.peer.rfcomm_channel)
+
+
+async def _r_dlc_disconnect(env, dlc):
+    await dlc.disconnect()
+    return dlc.state.name
+
+
+async def _r_mux_disconnect(env, mux):
+    await mux.disconnect()
+    return mux.state.name
+
+
 async def _s_avdtp(env):
     return await avdtp.Protocol.connect(env.conn_l)
 
@@ -476,6 +491,8 @@ PROCS = [
     Proc('sdp_search_attributes', True, 'sdp.Client.search_attributes()', _s_sdp, _r_sdp, _eq([b'node-1'])),
     Proc('rfcomm_start', True, 'rfcomm.Client.start()', _no_setup, _r_rfcomm_start, _eq('CONNECTED')),
     Proc('rfcomm_open_dlc', True, 'rfcomm.Multiplexer.open_dlc()', _s_rfcomm, _r_open_dlc, _eq('CONNECTED')),
+    Proc('rfcomm_dlc_disconnect', True, 'rfcomm.DLC.disconnect()', _s_dlc, _r_dlc_disconnect),
+    Proc('rfcomm_mux_disconnect', True, 'rfcomm.Multiplexer.disconnect()', _s_rfcomm, _r_mux_disconnect),
     Proc('avdtp_discover', True, 'avdtp.Protocol.discover_remote_endpoints()', _s_avdtp, _r_avdtp_discover, _eq(1)),
     Proc('classic_acl_disconnect', True, 'Connection.disconnect() (BR/EDR)', _no_setup, _r_acl_disconnect),
     Proc('classic_remote_name', True, 'Connection.request_remote_name()', _no_setup, _r_remote_name),
